@@ -2,12 +2,20 @@ import OVM.Refine.NextPrev
 import OVM.Gen.Handles
 import OVM.Base.Bits
 import OVM.Kernel.Delete
+import OVM.Refine.ReachMirror
 /-
   C08 — opposite half-entities are exact mirror images.
   Part 1 is about the definitions *generated from the C++ sources* (OVM.Gen.Handles, T1):
   an edit to `idx ^ 1`, `idx / 2`, `2*idx + sub` or a correction threshold breaks these proofs.
   Part 2 ties the mechanism model's own arithmetic to the generated one.
   Part 3 is the mesh-level mirror algebra on the model.
+  Part 4 (lemmas in OVM/Refine/FaceLoopStep.lean, OVM/Refine/ReachMirror.lean): ON REACHABLE STATES.  Faces created by
+  `add_face(vertices)` or accepted by `add_face(halfedges)` with topology check are closed loops running
+  v0→v1→…→v0 (`addFaceV_closed_loop`, `addFace_checked_closed_loop`); every live face of every state reached by valid
+  calls respecting `Global.LoopOK` is a closed loop, through every renumbering (`closed_loops_on_reachable_states`); and
+  for every live halfface of such a state `mirror_images_on_reachable_states`: the opposite side lists the opposite
+  halfedges in reverse order, its vertex circulator runs the reverse cycle, next/prev are inverse steps along the
+  loop and are mirrored to prev/next on the opposite side (halffaces without a repeated halfedge).
 -/
 namespace OVM.Props.C08
 open OVM
@@ -240,6 +248,166 @@ example :
     let k : Kernel := { nV := 3, edges := [(0, 1), (1, 2), (2, 0)], faces := [[0, 2, 4]] }
     (k.hfHes 0).Nodup ∧ k.prevHe 0 0 = some 4 ∧ k.nextHe 4 0 = some 0 ∧ k.prevHe 5 1 = some 1 ∧ k.nextHe 1 1 = some 5 := by decide
 
+/-! ## Part 4: on reachable states — closed loops and mirror images of every live halfface
 
+`Global.FaceLoop k` ("every live face is a `ClosedLoop`") holds after every history of valid calls from the empty mesh
+(`Global.HistoryOK`, Props/C01Reach) that respects `Global.LoopOK` at every call: an UNCHECKED `add_face(halfedges)` /
+`set_face` is handed a closed loop and `set_edge` is not applied to an edge of a live face; `add_face(vertices)` and
+`add_face(halfedges)` WITH topology check need nothing (`addFaceV_closed_loop`, `addFace_checked_closed_loop`), and
+every deleting / swapping / collecting / mode-switching call in every deletion mode — all renumberings — keeps it
+(`Global.stable_faceLoop`, OVM/Refine/FaceLoopStep.lean).  Without `LoopOK` it fails (an unchecked one-halfedge face
+on a non-loop edge, witness below).  On such states `mirror_images_on_reachable_states` gives, for EVERY live halfface
+of every valence ≥ 1 (loops and 2-gons included): both sides are closed loops, the opposite side lists the opposite
+halfedges in reverse order and its vertex circulator runs the reverse cycle, and — when the halfface repeats no
+halfedge, e.g. when its vertices are pairwise distinct — next/prev are inverse steps ALONG the loop whose mirror images
+on the opposite side are prev/next.  (`Global.Loop` is this file's `ClosedLoop`, repeated in
+OVM/Refine/FaceLoopStep.lean for import reasons: `closedLoop_iff_loop`.) -/
+
+open OVM.Kernel.Global (GInv FaceLoop LoopOK LoopHistory ginv_reachable faceLoop_reachable historyOK_of_B loopHistory_of_B)
+
+theorem closedLoop_iff_loop (k : Kernel) (hes : List Nat) : ClosedLoop k hes ↔ Global.Loop k hes := Iff.rfl
+
+/-- **`add_face(v0 … v_{n-1})`** on valid, not-deleted vertices of a state satisfying the global invariant: the new
+    face `nF` is live and a closed loop whose `j`-th halfedge runs `v_j → v_{(j+1) mod n}`; its halfface `2·nF` has the
+    vertex cycle `v0 v1 … v_{n-1}`, the opposite halfface `2·nF+1` the reverse cycle `v0 v_{n-1} … v1`; older faces are
+    untouched -/
+theorem addFaceV_closed_loop (k : Kernel) (hi : GInv k) (v0 : Nat) (t : List Nat)
+    (hok : Global.OpOK k (.addFaceV (v0 :: t))) :
+    let k' := (k.addFaceV (v0 :: t)).1
+    (k.addFaceV (v0 :: t)).2 = some k.nF ∧ k'.liveF k.nF = true ∧ ClosedLoop k' (k'.faceAt k.nF) ∧
+    (k'.faceAt k.nF).map k'.fromV = v0 :: t ∧ (k'.faceAt k.nF).map k'.toV = (v0 :: t).rotateLeft 1 ∧
+    k'.hfVerts (2 * k.nF) = v0 :: t ∧ k'.hfVerts (2 * k.nF + 1) = ((v0 :: t).rotateLeft 1).reverse ∧
+    (∀ f, f < k.nF → k'.faceAt f = k.faceAt f) := by
+  intro k'
+  obtain ⟨r, x, _, hl, hloop, _, hfrom, _, _⟩ := Global.addFaceV_loop hi.wf v0 t (fun v hv => (hok v hv).1)
+  have hv : k'.hfVerts (2 * k.nF) = v0 :: t := by unfold Kernel.hfVerts; rw [Kernel.hfHes_two_mul]; exact hfrom
+  have hloop2 : Global.Loop k' (k'.hfHes (2 * k.nF)) := by rw [Kernel.hfHes_two_mul]; exact hloop
+  refine ⟨r, hl, hloop, hfrom, ?_, hv, ?_, fun f hf => x.faceAt hf⟩
+  · rw [Global.map_toV_eq_rotate hloop, hfrom]
+  · have := Global.hfVerts_opp_of_loop hloop2
+    rw [ScanDel.opp_two_mul, hv] at this
+    exact this
+
+/-- **`add_face(halfedges)` with topology check** accepts only closed loops, and the face it creates is a closed loop
+    in the new state -/
+theorem addFace_checked_closed_loop (k : Kernel) (hes : List Nat) (f : Nat) (h : (k.addFace hes true).2 = some f) :
+    f = k.nF ∧ ClosedLoop k hes ∧ (k.addFace hes true).1.faceAt f = hes ∧ ClosedLoop (k.addFace hes true).1 hes := by
+  unfold Kernel.addFace at h ⊢
+  split at h
+  · rename_i hacc
+    have hf : f = k.nF := by simpa using h.symm
+    have hc : ClosedLoop k hes := by
+      unfold Kernel.addFaceAccepts at hacc
+      simp only [Bool.not_true, Bool.false_or, beq_iff_eq] at hacc
+      exact (Global.faceLoopOk_iff_loop k hes).mp hacc
+    refine ⟨hf, hc, ?_, ?_⟩
+    · simp only [hacc, if_true]
+      unfold Kernel.faceAt; rw [addFaceCore_faces, hf]; unfold Kernel.nF
+      simp [List.getD_eq_getElem?_getD]
+    · simp only [hacc, if_true]
+      exact Global.loop_congr (fun a _ => by unfold Kernel.halfedge Kernel.edgeAt; rw [addFaceCore_edges]) hc
+  · cases h
+
+/-- one valid call that respects `LoopOK` keeps every live face a closed loop (whole vocabulary, all modes) -/
+theorem closed_loops_step (k : Kernel) (op : Op) (hi : GInv k) (hok : Global.OpOK k op) (hc : LoopOK k op)
+    (hq : ∀ f, k.liveF f = true → ClosedLoop k (k.faceAt f)) :
+    ∀ f, (k.step op).1.liveF f = true → ClosedLoop (k.step op).1 ((k.step op).1.faceAt f) :=
+  Global.faceLoop_step k op hi hok hc hq
+
+/-- **every live face of every reachable state is a closed loop** (each halfedge ends where the next begins) -/
+theorem closed_loops_on_reachable_states (ops : List Op) (hr : Global.HistoryOK {} ops) (hc : LoopHistory {} ops) :
+    ∀ f, (run {} ops).liveF f = true → ClosedLoop (run {} ops) ((run {} ops).faceAt f) :=
+  faceLoop_reachable ops hr hc
+
+/-- **the two sides of a live face mirror each other** -/
+structure MirrorImages (k : Kernel) (hf : Nat) : Prop where
+  /-- both halffaces are closed loops -/
+  loop : ClosedLoop k (k.hfHes hf)
+  loop_opp : ClosedLoop k (k.hfHes (Kernel.opp hf))
+  /-- the halfedge circulator of the opposite side: the opposite halfedges in reverse order; twice is the identity -/
+  hes_opp : k.hfHes (Kernel.opp hf) = oppFace (k.hfHes hf)
+  hes_opp_opp : k.hfHes (Kernel.opp (Kernel.opp hf)) = k.hfHes hf
+  /-- every halfedge of the halfface is valid and live, and its opposite swaps source and target -/
+  he_valid : ∀ h ∈ k.hfHes hf, h < k.nHE ∧ k.liveE (eOf h) = true ∧
+    k.fromV (Kernel.opp h) = k.toV h ∧ k.toV (Kernel.opp h) = k.fromV h
+  /-- the targets are the sources rotated by one: halfedge `i` runs `v_i → v_{(i+1) mod n}` -/
+  targets : (k.hfHes hf).map k.toV = (k.hfVerts hf).rotateLeft 1
+  /-- the vertex circulator of the opposite side runs the reverse cycle `v0 v_{n-1} … v1` -/
+  verts_opp : k.hfVerts (Kernel.opp hf) = ((k.hfVerts hf).rotateLeft 1).reverse
+  /-- pairwise distinct vertices ⇒ no repeated halfedge -/
+  nodup : (k.hfVerts hf).Nodup → (k.hfHes hf).Nodup
+  /-- next / prev on a halfface without a repeated halfedge: inverse steps along the loop, mirrored on the other side -/
+  next_prev : (k.hfHes hf).Nodup → ∀ he ∈ k.hfHes hf, ∃ nx pv,
+    k.nextHe he hf = some nx ∧ k.prevHe he hf = some pv ∧ nx ∈ k.hfHes hf ∧ pv ∈ k.hfHes hf ∧
+    k.prevHe nx hf = some he ∧ k.nextHe pv hf = some he ∧
+    k.fromV nx = k.toV he ∧ k.toV pv = k.fromV he ∧
+    k.nextHe (Kernel.opp he) (Kernel.opp hf) = some (Kernel.opp pv) ∧
+    k.prevHe (Kernel.opp he) (Kernel.opp hf) = some (Kernel.opp nx)
+
+theorem mirror_images_of_inv (k : Kernel) (hi : GInv k) (hq : FaceLoop k) (hf : Nat) (hl : k.liveF (eOf hf) = true) :
+    MirrorImages k hf := by
+  have hloop : Global.Loop k (k.hfHes hf) := Global.hfLoop_of_faceLoop hq hl
+  have hl' : k.liveF (eOf (Kernel.opp hf)) = true := by rw [ScanDel.eOf_opp]; exact hl
+  refine ⟨hloop, Global.hfLoop_of_faceLoop hq hl', hfHes_opp k hf, hfHes_opp_opp k hf, ?_, ?_,
+    Global.hfVerts_opp_of_loop hloop, Global.nodup_hes_of_nodup_verts, ?_⟩
+  · intro h hm
+    obtain ⟨a, b⟩ := Global.hf_he_live hi hl hm
+    exact ⟨a, b, fromV_opp k h, toV_opp k h⟩
+  · exact Global.map_toV_eq_rotate hloop
+  · intro hn he hm
+    obtain ⟨nx, pv, a1, a2, a3, a4, a5, a6⟩ := next_prev_inverse k hf he hn hm
+    obtain ⟨⟨nx', b1, _, b3⟩, ⟨pv', c1, _, c3⟩⟩ := Global.toV_eq_fromV_next hloop hn hm
+    have e1 : nx' = nx := by rw [a1] at b1; exact (Option.some.inj b1).symm
+    have e2 : pv' = pv := by rw [a2] at c1; exact (Option.some.inj c1).symm
+    subst e1; subst e2
+    obtain ⟨m1, m2⟩ := Global.nextHe_opp hn hm
+    rw [a2] at m1; rw [a1] at m2
+    exact ⟨nx', pv', a1, a2, a3, a4, a5, a6, b3, c3, m1, m2⟩
+
+/-- **C08 on every reachable state**: after every history of valid calls from the empty mesh that respects `LoopOK`
+    (all deletion modes, all bottom-up configurations, after every renumbering), every live halfface — of every
+    valence ≥ 1 — and its opposite are exact mirror images in the sense of `MirrorImages` -/
+theorem mirror_images_on_reachable_states (ops : List Op) (hr : Global.HistoryOK {} ops) (hc : LoopHistory {} ops) :
+    ∀ hf, (run {} ops).liveF (eOf hf) = true → MirrorImages (run {} ops) hf :=
+  fun hf hl => mirror_images_of_inv _ (ginv_reachable ops hr) (faceLoop_reachable ops hr hc) hf hl
+
+/-! ### non-vacuity -/
+
+/-- a quad, a 2-gon and a loop through `add_face(vertices)`, the same quad and 2-gon again through `add_face(halfedges)`
+    with topology check, then renumberings: a vertex swap, an edge swap, a deferred `delete_vertex` with
+    `collect_garbage` (index shifts), a face swap -/
+def mirrorOps : List Op :=
+  [.addNVertices 5, .addFaceV [0,1,2,3], .addFaceV [0,1], .addFaceV [2], .addEdge 3 4 false,
+   .addFaceHe true [0, 2, 4, 6], .addFaceHe true [0, 4], .swapVertex 0 3, .swapEdge 0 2, .deleteVertex 4, .collectGarbage,
+   .swapFace 0 1]
+
+set_option maxRecDepth 1000000 in
+/-- the history is valid and respects `LoopOK` (decided at every call; the second checked `add_face` is REJECTED —
+    `0→1, 2→3` is no loop — and changes nothing), so the bundle applies to every live halfface of the end state: the quad
+    (halffaces 2, 3: reverse cycle `3 1 2 0` / `3 0 2 1`), the 2-gon (halffaces 0, 1, whose halfedge lists coincide) and
+    the loop (halffaces 4, 5: one halfedge `2→2`); next/prev on the quad's two sides are mirrored.  And the witness that
+    `LoopOK` cannot be dropped: one unchecked one-halfedge face on a non-loop edge -/
+example :
+    let k := run {} mirrorOps
+    (∀ hf, k.liveF (eOf hf) = true → MirrorImages k hf) ∧ k.faces = [[4, 5], [4, 2, 0, 6], [9], [4, 2, 0, 6]] ∧
+    k.hfVerts 2 = [3, 1, 2, 0] ∧ k.hfVerts 3 = [3, 0, 2, 1] ∧ k.hfHes 3 = [7, 1, 3, 5] ∧
+    k.hfHes 0 = [4, 5] ∧ k.hfHes 1 = [4, 5] ∧ k.hfVerts 0 = [3, 1] ∧ k.hfHes 4 = [9] ∧ k.hfVerts 5 = [2] ∧
+    k.prevHe 2 2 = some 4 ∧ k.nextHe 3 3 = some 5 ∧ Kernel.opp 4 = 5 ∧
+    (let bad : List Op := [.addNVertices 2, .addEdge 0 1 false, .addFaceHe false [0]]
+     Global.historyOKB {} bad = true ∧ Global.loopHistoryB {} bad = false ∧ Global.faceLoopB (run {} bad) = false) := by
+  intro k
+  have h := mirror_images_on_reachable_states mirrorOps (historyOK_of_B {} mirrorOps (by decide))
+    (loopHistory_of_B {} mirrorOps (by decide))
+  exact ⟨h, by decide, by decide, by decide, by decide, by decide, by decide, by decide, by decide, by decide,
+    by decide, by decide, by decide, by decide⟩
+
+set_option maxRecDepth 1000000 in
+/-- instance of `next_prev` on the quad: `next(opp 2, opp hf) = opp(prev(2, hf))` -/
+example : ∃ nx pv, (run {} mirrorOps).nextHe 2 2 = some nx ∧ (run {} mirrorOps).prevHe 2 2 = some pv ∧
+    (run {} mirrorOps).nextHe (Kernel.opp 2) (Kernel.opp 2) = some (Kernel.opp pv) := by
+  have h := (mirror_images_on_reachable_states mirrorOps (historyOK_of_B {} mirrorOps (by decide))
+    (loopHistory_of_B {} mirrorOps (by decide)) 2 (by decide)).next_prev (by decide) 2 (by decide)
+  obtain ⟨nx, pv, a1, a2, _, _, _, _, _, _, a9, _⟩ := h
+  exact ⟨nx, pv, a1, a2, a9⟩
 
 end OVM.Props.C08
